@@ -504,8 +504,13 @@ class ProcProxyThread(threading.Thread):
             if not last_in_pipeline:
                 # Close wrappers before closing raw fds to avoid
                 # "Bad file descriptor" on finalization in Python 3.14+.
-                safe_fdclose(sp_stdout)
-                safe_fdclose(sp_stderr)
+                # Only the wrappers opened above: without a pipe fd
+                # ``sp_stdout``/``sp_stderr`` are the interpreter's own
+                # streams, which must outlive this thread.
+                if self.c2pwrite != -1:
+                    safe_fdclose(sp_stdout)
+                if self.errwrite != -1:
+                    safe_fdclose(sp_stderr)
                 # Close write ends via PipeChannel to signal EOF to downstream
                 for ch in spec.pipe_channels:
                     ch.close_writer()
@@ -515,8 +520,10 @@ class ProcProxyThread(threading.Thread):
                     self._stderr_pipe.close_writer()
                 return
             # clean up
-            for handle in (sp_stdout, sp_stderr):
-                safe_fdclose(handle, cache=self._closed_handle_cache)
+            if self.c2pwrite != -1:
+                safe_fdclose(sp_stdout, cache=self._closed_handle_cache)
+            if self.errwrite != -1:
+                safe_fdclose(sp_stderr, cache=self._closed_handle_cache)
             # Close write ends via PipeChannel to signal EOF to readers
             for ch in spec.pipe_channels:
                 ch.close_writer()
